@@ -4846,6 +4846,15 @@ fn eval_assert(
         None => None,
     };
 
+    // If we fail, put back everything we popped (in the order it was
+    // pushed), so that resuming re-runs this step on the same values.
+    let mut saved_values = vec![];
+    if let Some((lhs_value, _, rhs_value)) = &subexpr_values {
+        saved_values.push(lhs_value.clone());
+        saved_values.push(rhs_value.clone());
+    }
+    saved_values.push(receiver_value.clone());
+
     if let Some(b) = receiver_value.as_rust_bool() {
         if !b {
             let message = match subexpr_values {
@@ -4876,7 +4885,7 @@ fn eval_assert(
             };
 
             return Err((
-                RestoreValues(vec![receiver_value]),
+                RestoreValues(saved_values),
                 EvalError::AssertionFailed(recv_expr.position.clone(), ErrorMessage(message)),
             ));
         }
@@ -4889,7 +4898,7 @@ fn eval_assert(
             env,
         );
         return Err((
-            RestoreValues(vec![receiver_value]),
+            RestoreValues(saved_values),
             EvalError::Exception(ExceptionInfo {
                 position: recv_expr.position.clone(),
                 message,
